@@ -4,7 +4,7 @@ from typing import TYPE_CHECKING
 
 from funtracks.exceptions import InvalidActionError
 
-from ..actions._base import ActionGroup
+from ..actions._base import ActionGroup, atomic
 from ..actions.add_delete_edge import DeleteEdge
 from ..actions.update_track_id import UpdateTrackIDs
 
@@ -13,6 +13,7 @@ if TYPE_CHECKING:
 
 
 class UserDeleteEdge(ActionGroup):
+    @atomic
     def __init__(
         self,
         tracks: SolutionTracks,
